@@ -292,6 +292,7 @@ func (f *Filter) Match(key [KeySize]byte, data []byte) (bool, error) {
 		return false, err
 	}
 
+	simPoint(siteCopied)
 	b := bstream.NewBStreamReader(filterData)
 
 	// We take the high and low bits of modulusNP for the multiplication
@@ -371,6 +372,7 @@ func (f *Filter) ZipMatchAny(key [KeySize]byte, data [][]byte) (bool, error) {
 		return false, err
 	}
 
+	simPoint(siteCopied)
 	b := bstream.NewBStreamReader(filterData)
 
 	// Create an uncompressed filter of the search values.
@@ -414,6 +416,7 @@ out:
 		value += delta
 
 		for {
+			simPoint(siteQueryLoop)
 			switch {
 
 			// All query items have been exhausted and we haven't
@@ -460,6 +463,7 @@ func (f *Filter) HashMatchAny(key [KeySize]byte, data [][]byte) (bool, error) {
 		return false, err
 	}
 
+	simPoint(siteCopied)
 	b := bstream.NewBStreamReader(filterData)
 
 	var (
@@ -493,6 +497,7 @@ func (f *Filter) HashMatchAny(key [KeySize]byte, data [][]byte) (bool, error) {
 	// Finally, run through the provided data items, querying the index to
 	// determine if the filter contains any elements of interest.
 	for _, d := range data {
+		simPoint(siteQueryLoop)
 		// For each datum, we assign the initial hash to
 		// a uint64.
 		v := siphash.Sum64(d, &key)
@@ -515,6 +520,7 @@ func (f *Filter) HashMatchAny(key [KeySize]byte, data [][]byte) (bool, error) {
 // the filter's P modulus (`2**P`) and a big-endian P-bit remainder.
 func (f *Filter) readFullUint64(b *bstream.BStream) (uint64, error) {
 	var quotient uint64
+	simPoint(siteReadValue)
 
 	// Count the 1s until we reach a 0.
 	c, err := b.ReadBit()
